@@ -529,8 +529,9 @@ def mask_body_len(m):
     return n + (-n) % 4
 
 
-def wf_mask(m):
-    return bool((m[5] >> 4) & 1) == (m[6] is not None) and ((mask_body_len(m) >= 36) == (m[7] is not None))
+def wf_mask(m, guard=True):
+    return bool((m[5] >> 4) & 1) == (m[6] is not None) and \
+        (not guard or (mask_body_len(m) >= 36) == (m[7] is not None))
 
 
 def wf_ranges(r):
@@ -549,17 +550,17 @@ def wf_tbs(l):
     return nodup([t[1] for t in l])
 
 
-def wf_rec(r):
-    return (r[10] is None or wf_mask(r[10])) and wf_ranges(r[11]) and wf_tbs(r[13])
+def wf_rec(r, mg=True):
+    return (r[10] is None or wf_mask(r[10], mg)) and wf_ranges(r[11]) and wf_tbs(r[13])
 
 
-def wf_li(l):
+def wf_li(l, mg=True):
     if l[0] == 0:
         return l[1] is None and l[2] is None
     if l[1] is None or l[2] is None:
         return False
     return len(l[1]) == abs(l[0]) and len(l[2]) == len(l[1]) and \
-        all(len(r[4]) == len(c) for r, c in zip(l[1], l[2])) and all(wf_rec(r) for r in l[1])
+        all(len(r[4]) == len(c) for r, c in zip(l[1], l[2])) and all(wf_rec(r, mg) for r in l[1])
 
 
 def wf_glmi(g):
@@ -584,21 +585,22 @@ def BIG_KEYS():
     return _BIG
 
 
-def wf_lami(version, l, restlen):
+def wf_lami(version, l, restlen, mg=True, gg=True):
     li, g, bs = l
     if li is None:
         return g is None and bs is None
-    ok = wf_li(li) and (g is None or wf_glmi(g))
+    ok = wf_li(li, mg) and (g is None or wf_glmi(g))
     if bs is not None:
         ok = ok and wf_tbs(bs) and (g is not None or not bs) and (bool(bs) or restlen > 0)
     else:
         ok = ok and restlen == 0
-    if g is not None and g[0] is None:
+    if gg and g is not None and g[0] is None:
         ok = ok and 17 <= 4 + sum(tb_len(version, t, 4) for t in (bs or [])) + restlen
     return ok
 
 
-def wf_case(case):
+def wf_case(case, mg=True, gg=True):
+    """twin of Corr.elem_wf; mg / gg = False drop the guards of the two refuted classes (F-C01-3 / F-C01-2)"""
     kind, a, d = case
     v = a.get("version", 1)
     if kind in ("header", "cmd", "res", "tb", "img"):
@@ -608,19 +610,19 @@ def wf_case(case):
     if kind == "tbs":
         return wf_tbs(d)
     if kind == "mask":
-        return wf_mask(d)
+        return wf_mask(d, mg)
     if kind == "ranges":
         return wf_ranges(d)
     if kind == "rec":
-        return wf_rec(d)
+        return wf_rec(d, mg)
     if kind == "li":
-        return wf_li(d)
+        return wf_li(d, mg)
     if kind == "glmi":
         return wf_glmi(d)
     if kind == "lami":
-        return wf_lami(v, d, 0)
+        return wf_lami(v, d, 0, mg, gg)
     if kind == "psd":
-        return nodup([r[1] for r in d[2]]) and wf_lami(d[0][1], d[3], 2 + len(d[4][1]))
+        return nodup([r[1] for r in d[2]]) and wf_lami(d[0][1], d[3], 2 + len(d[4][1]), mg, gg)
     raise KeyError(kind)
 
 
@@ -664,8 +666,9 @@ def extract_tables():
 
 
 def gen_tables_v(t):
-    zl = lambda l: "[" + ";".join(z(x) for x in l) + "]"
-    pr = lambda p: "(%s, %s)" % (z(p[0]), z(p[1]))
+    zz = lambda x: "(%d)%%Z" % int(x)
+    zl = lambda l: "[" + ";".join(zz(x) for x in l) + "]"
+    pr = lambda p: "(%s, %s)" % (zz(p[0]), zz(p[1]))
     body = "From PsdV Require Import Psd.Model.\n"
     defs = [
         ("versions", zl(t["versions"]), "model_versions"),
@@ -681,7 +684,7 @@ def gen_tables_v(t):
         ("clippings", zl(t["clippings"]), "model_clippings"),
         ("compressions", zl(t["compressions"]), "model_compressions"),
         ("glmi_kinds", zl(t["glmi_kinds"]), "model_glmi_kinds"),
-        ("glmi_default_kind", z(t["glmi_default_kind"]), "model_glmi_default_kind"),
+        ("glmi_default_kind", zz(t["glmi_default_kind"]), "model_glmi_default_kind"),
         ("blend_modes", zl(t["blend_modes"]), "model_blend_modes"),
         ("big_keys", zl(t["big_keys"]), "model_big_keys"),
     ]
@@ -1079,3 +1082,227 @@ def deform(rng, kind, d):
         else:
             tag = do_lami(d[3])
     return None if tag is None else (tag, d)
+
+
+# ----------------------------------------------------------------------------- the independent format walker
+# Written from the Adobe "Photoshop File Formats Specification" (sections File Header, Color Mode
+# Data, Image Resources, Layer and Mask Information, Image Data); uses NO psd_tools code.  It
+# navigates purely by the length fields and checks that every region is filled exactly.
+# Twin of Psd/Walk.v (same block kinds, same checks); additionally knows file offsets and can check
+# RLE row tables (which need the pixel geometry).
+K_HEADER, K_CMD, K_RESOURCES, K_RES, K_LAMI, K_LAYERINFO, K_RECORD, K_CHANNEL, K_GLMI, K_GTB, K_LTB, K_IMAGE, \
+    K_MASK, K_RANGES, K_NAME = range(1, 16)
+# keys whose length field is 8 bytes in a PSB: the list of the specification
+# (LMsk, Lr16, Lr32, Layr, Mt16, Mt32, Mtrn, Alph, FMsk, lnk2, FEid, FXid, PxSD) and the keys found
+# with 8-byte lengths in PSB files written by Photoshop CC (lnk3, lnkE, FELS, extd, extn, pths, cinf, artd)
+WALK_BIG_KEYS = {fcc(k) for k in (b"LMsk", b"Lr16", b"Lr32", b"Layr", b"Mt16", b"Mt32", b"Mtrn", b"Alph", b"FMsk", b"lnk2",
+                                  b"FEid", b"FXid", b"PxSD", b"lnk3", b"lnkE", b"FELS", b"extd", b"extn", b"pths", b"cinf",
+                                  b"artd")}
+
+
+class WalkError(Exception):
+    pass
+
+
+def walk(data, check_rle=False):
+    data = bytes(data)
+    n = len(data)
+    out = []
+
+    def need(p, k, what):
+        if k < 0 or p + k > n:
+            raise WalkError("%s: need %d bytes at %d, file has %d" % (what, k, p, n))
+
+    def u(p, k, what, end=None):
+        need(p, k, what)
+        if end is not None and p + k > end:
+            raise WalkError("%s: field at %d crosses the end of its region (%d)" % (what, p, end))
+        return int.from_bytes(data[p:p + k], "big")
+
+    def s16(p, what, end=None):
+        v = u(p, 2, what, end)
+        return v - 65536 if v >= 32768 else v
+
+    def s32(p, what, end=None):
+        v = u(p, 4, what, end)
+        return v - (1 << 32) if v >= (1 << 31) else v
+
+    # ---- header
+    need(0, 26, "header")
+    if data[0:4] != b"8BPS":
+        raise WalkError("signature")
+    version = u(4, 2, "version")
+    if version not in (1, 2):
+        raise WalkError("version %d" % version)
+    if data[6:12] != bytes(6):
+        raise WalkError("reserved bytes not zero")
+    channels, height, width, depth = u(12, 2, "channels"), u(14, 4, "height"), u(18, 4, "width"), u(22, 2, "depth")
+    out.append((K_HEADER, 0, 26))
+    nb = 4 if version == 1 else 8
+    p = 26
+    # ---- color mode data
+    L = u(p, 4, "color mode data length")
+    need(p + 4, L, "color mode data")
+    out.append((K_CMD, p, 4 + L))
+    p += 4 + L
+    # ---- image resources
+    L = u(p, 4, "image resources length")
+    need(p + 4, L, "image resources")
+    out.append((K_RESOURCES, p, 4 + L))
+    p += 4
+    end = p + L
+    while p < end:
+        st = p
+        u(p, 4, "resource signature", end)
+        u(p + 4, 2, "resource id", end)
+        nl = u(p + 6, 1, "resource name length", end)
+        q = p + 7 + nl
+        if (1 + nl) % 2:
+            q += 1
+        sz = u(q, 4, "resource size", end)
+        q += 4 + sz
+        if sz % 2:
+            q += 1
+        if q > end:
+            raise WalkError("resource block at %d overruns the section end %d" % (st, end))
+        out.append((K_RES, st, q - st))
+        p = q
+    if p != end:
+        raise WalkError("image resources do not fill the section")
+    # ---- layer and mask information
+    L = u(p, nb, "layer and mask information length")
+    need(p + nb, L, "layer and mask information")
+    out.append((K_LAMI, p, nb + L))
+    p += nb
+    end = p + L
+    if L > 0:
+        LL = u(p, nb, "layer info length", end)
+        if p + nb + LL > end:
+            raise WalkError("layer info overruns the section")
+        out.append((K_LAYERINFO, p, nb + LL))
+        p += nb
+        li_end = p + LL
+        if LL > 0:
+            count = s16(p, "layer count", li_end)
+            p += 2
+            recs = []
+            for _ in range(abs(count)):
+                st = p
+                rec_slot = len(out)
+                out.append(None)                     # the record entry precedes its parts (pre-order)
+                top, left, bottom, right = (s32(p + 4 * i, "layer rectangle", li_end) for i in range(4))
+                nch = u(p + 16, 2, "channel count", li_end)
+                p += 18
+                chans = []
+                for _c in range(nch):
+                    cid = s16(p, "channel id", li_end)
+                    clen = u(p + 2, nb, "channel length", li_end)
+                    chans.append((cid, clen))
+                    p += 2 + nb
+                if u(p, 4, "blend signature", li_end) != SIG_8BIM:
+                    raise WalkError("blend mode signature at %d" % p)
+                p += 12                      # signature, key, opacity, clipping, flags, filler
+                xl = u(p, 4, "extra data length", li_end)
+                p += 4
+                x_end = p + xl
+                if x_end > li_end:
+                    raise WalkError("layer record extra data overruns the layer info")
+                ml = u(p, 4, "mask data length", x_end)
+                if p + 4 + ml > x_end:
+                    raise WalkError("mask data overruns the extra data")
+                mask_rect = None
+                if ml >= 16:
+                    mask_rect = tuple(s32(p + 4 + 4 * i, "mask rectangle") for i in range(4))
+                out.append((K_MASK, p, 4 + ml))
+                p += 4 + ml
+                rl = u(p, 4, "blending ranges length", x_end)
+                if p + 4 + rl > x_end:
+                    raise WalkError("blending ranges overrun the extra data")
+                if rl % 8:
+                    raise WalkError("blending ranges length %d is not a multiple of 8" % rl)
+                out.append((K_RANGES, p, 4 + rl))
+                p += 4 + rl
+                nl = u(p, 1, "layer name length", x_end)
+                q = p + 1 + nl
+                q += (-(1 + nl)) % 4
+                if q > x_end:
+                    raise WalkError("layer name overruns the extra data")
+                out.append((K_NAME, p, q - p))
+                p = q
+                while x_end - p >= 12:
+                    bst = p
+                    sg = u(p, 4, "block signature", x_end)
+                    if sg not in (SIG_8BIM, SIG_8B64):
+                        raise WalkError("tagged block signature at %d" % p)
+                    key = u(p + 4, 4, "block key", x_end)
+                    lb = 8 if (version == 2 and key in WALK_BIG_KEYS) else 4
+                    bl = u(p + 8, lb, "block length", x_end)
+                    p += 8 + lb + bl
+                    if p > x_end:
+                        raise WalkError("tagged block at %d overruns the extra data" % bst)
+                    out.append((K_LTB, bst, p - bst))
+                if x_end - p >= 2 or any(data[p:x_end]):
+                    raise WalkError("extra data of the layer record at %d: %d unexplained bytes" % (st, x_end - p))
+                p = x_end
+                out[rec_slot] = (K_RECORD, st, p - st)
+                recs.append(((top, left, bottom, right), chans, mask_rect))
+            for rect, chans, mask_rect in recs:
+                for cid, clen in chans:
+                    if clen < 2:
+                        raise WalkError("channel length %d < 2" % clen)
+                    if p + clen > li_end:
+                        raise WalkError("channel data overruns the layer info")
+                    comp = u(p, 2, "channel compression", li_end)
+                    if comp > 3:
+                        raise WalkError("compression %d" % comp)
+                    if check_rle and comp == 1:
+                        r = rect if cid >= -1 else (mask_rect if cid == -2 else None)
+                        if r is not None:
+                            rows = max(r[2] - r[0], 0)
+                            if max(r[3] - r[1], 0) == 0:
+                                rows = rows      # zero-width: the table is still there
+                            cw = 2 if version == 1 else 4
+                            if 2 + rows * cw > clen:
+                                raise WalkError("RLE row table of channel at %d longer than the channel" % p)
+                            tot = sum(int.from_bytes(data[p + 2 + i * cw:p + 2 + (i + 1) * cw], "big") for i in range(rows))
+                            if 2 + rows * cw + tot != clen:
+                                raise WalkError("RLE row table at %d sums to %d, channel holds %d" % (p, tot, clen - 2 - rows * cw))
+                    out.append((K_CHANNEL, p, clen))
+                    p += clen
+            if li_end - p >= 4 or any(data[p:li_end]):
+                raise WalkError("layer info: %d unexplained bytes before its end" % (li_end - p))
+        p = li_end
+        if end - p >= 4:
+            gl = u(p, 4, "global layer mask info length", end)
+            if p + 4 + gl > end:
+                raise WalkError("global layer mask info overruns the section")
+            out.append((K_GLMI, p, 4 + gl))
+            p += 4 + gl
+            while p < end:
+                bst = p
+                sg = u(p, 4, "block signature", end)
+                if sg not in (SIG_8BIM, SIG_8B64):
+                    raise WalkError("tagged block signature at %d" % p)
+                key = u(p + 4, 4, "block key", end)
+                lb = 8 if (version == 2 and key in WALK_BIG_KEYS) else 4
+                bl = u(p + 8, lb, "block length", end)
+                p += 8 + lb + bl
+                p += (-bl) % 4
+                if p > end:
+                    raise WalkError("tagged block at %d overruns the section" % bst)
+                out.append((K_GTB, bst, p - bst))
+        if p != end:
+            raise WalkError("layer and mask information: %d unexplained bytes" % (end - p))
+    # ---- image data
+    comp = u(p, 2, "image data compression")
+    if comp > 3:
+        raise WalkError("image compression %d" % comp)
+    if check_rle and comp == 1:
+        rows = height * channels
+        cw = 2 if version == 1 else 4
+        need(p + 2, rows * cw, "image RLE row table")
+        tot = sum(int.from_bytes(data[p + 2 + i * cw:p + 2 + (i + 1) * cw], "big") for i in range(rows))
+        if p + 2 + rows * cw + tot != n:
+            raise WalkError("image RLE row table sums to %d, file holds %d" % (tot, n - p - 2 - rows * cw))
+    out.append((K_IMAGE, p, n - p))
+    return out
